@@ -42,7 +42,7 @@ Fold(t, i, accs, flags, bad) ==
          IN  Fold(t, i + 1, [accs EXCEPT ![e] = r.acc], FlagsAfter(flags, s, accs[e]),
                   bad \cup {[i |-> i, key |-> k] : k \in r.bad})
 
-PairOb(p, a) == [st |-> p.st, wsOpen |-> p.wsOpen, nSetup |-> a.nSetup, idOk |-> p.idOk]
+PairOb(p, a) == [st |-> p.st, wsOpen |-> p.wsOpen, nSetup |-> a.nSetup, idOk |-> p.idOk, nClosed |-> a.nClosed]
 
 JudgeTrace(t) ==
     LET eps == DOMAIN t.roles
